@@ -2693,6 +2693,74 @@ func scenInstallThenOwnSnapshot(e *engineA) error {
 	return e.finish()
 }
 
+func init() { scenarios["transfer-target-campaigns-later"] = scenTransferTargetCampaignsLater }
+
+// scenTransferTargetCampaignsLater (C17 / C16): the target of a leadership
+// transfer is told to time out now, but nothing it sends gets through: it
+// campaigns alone, the transfer times out, the leader stays and goes on. The
+// network comes back, the target's candidacy ends without success (its log
+// is behind) and it follows the leader that emerges. Later it is cut off
+// once more and campaigns for the ordinary reason - that candidacy has no
+// permission to disturb a live leader.
+func scenTransferTargetCampaignsLater(e *engineA) error {
+	e.prof = profiles["transfer"]
+	if err := e.boot(3 + 2*e.rng.Intn(2)); err != nil {
+		return err
+	}
+	e.cl.startInfoSampler(e.hb() / 2)
+	l := e.cl.leader()
+	if l == nil {
+		return fmt.Errorf("no leader")
+	}
+	for i := 0; i < 3; i++ {
+		e.cl.fsmOp(1, l, "update")
+	}
+	e.sleepHB(1, 2)
+	x := e.others(l)[0]
+	e.rc.emit(&ev.Rec{K: "fault", Op: "transfer-target-mute-then-campaigns-again-later", Nid: x.nid})
+	for _, o := range e.cl.liveNodes() {
+		if o != x {
+			e.net.Cut(x.label, o.label, true) // x hears, nobody hears x
+		}
+	}
+	e.cl.transfer(l, x.nid, 6*e.hb())
+	e.isolate(x, true)
+	if cur := e.cl.leader(); cur != nil {
+		for i := 0; i < 3; i++ {
+			e.cl.fsmOp(1, cur, "update")
+		}
+	}
+	e.sleepHB(2, 4)
+	e.isolate(x, false)
+	// its candidacy ends; it follows whoever leads now
+	if !e.waitFor(120, func() bool {
+		xi, ok := x.info(false)
+		if !ok || xi.State != raft.Follower || xi.Leader == 0 {
+			return false
+		}
+		cur := e.cl.leader()
+		return cur != nil && cur.nid == xi.Leader
+	}) {
+		return fmt.Errorf("the target did not settle as a follower")
+	}
+	e.sleepHB(2, 3)
+	if cur := e.cl.leader(); cur != nil {
+		e.cl.fsmOp(1, cur, "update")
+	}
+	// cut off again: an ordinary candidacy
+	e.isolate(x, true)
+	e.waitFor(40, func() bool {
+		xi, ok := x.info(false)
+		return ok && xi.State == raft.Candidate
+	})
+	e.sleepHB(2, 3)
+	e.isolate(x, false)
+	e.sleepHB(4, 6)
+	e.startClients(2, map[string]int{"update": 3, "read": 1})
+	e.sleepHB(3, 6)
+	return e.finish()
+}
+
 func init() { scenarios["late-install-response"] = scenLateInstallResponse }
 
 // scenLateInstallResponse (C15 / C17): a new node is brought up by snapshot
